@@ -9,6 +9,8 @@ SPEC = {
     ],
     "engines": [
         {"name": "ingest", "pkg": "./ingest", "search_cases": 15000},
+        # the API's resolve_timeout, routing tree (receivers of GET /alerts) and served configuration belong to the configuration in force (C17's engine)
+        {"name": "reload", "pkg": "./reload", "search_cases": 4, "timeout_quick": 400, "timeout_thorough": 900, "timeout_search": 400, "only": ["failed_reload_keeps_running", "failed_reload_keeps_config"]},
     ],
     "rule": "random submission histories through the real API v2 HTTP handler (POST/GET /api/v2/alerts, in-process) on the real "
             "mem.Alerts provider + a real Inhibitor under synctest virtual time: 3-5 label sets per case, batches of 1-3 alerts "
